@@ -57,3 +57,21 @@ Example C18_example :
   let t := build (parent 3) 4 3 false [5;5;63;0;9;12;9;300;301;511] in
   merge_counters [count_trace (execute 3 false 2 7 t); count_trace (execute 3 false 2 56 t)] = count_trace (execute 3 false 2 63 t).
 Proof. vm_compute. reflexivity. Qed.
+
+(* ---- the per-worker counters of the task executors (Sched/OmpCounters.v): whatever the assignment of tasks to workers and
+   whatever the order in which the per-worker counters are merged, the result is the sequential run's counters ---- *)
+From Tbfmm Require Import Sched.TaskDefs Sched.OmpDefs Sched.OmpTsmDefs Sched.OmpCounters Exec.ExecTsmDefs.
+From Coq Require Import Sorting.Permutation.
+
+Theorem C18_omp_worker_counters_any_order : forall d per stop t a W (ws : list nat),
+  (forall i, (i < length (omp_tasks d per stop 63 t))%nat -> (a i < W)%nat) -> Permutation ws (seq 0 W) ->
+  merge_counters (map (fun w => count_trace (worker_calls (omp_tasks d per stop 63 t) a w)) ws) = count_trace (execute d per stop 63 t).
+Proof. exact omp_worker_counters_any_order. Qed.
+Print Assumptions C18_omp_worker_counters_any_order.
+
+Theorem C18_omp_tsm_worker_counters : forall d per stop src tgt a W,
+  (forall i, (i < length (omp_tsm_tasks d per stop 63 src tgt))%nat -> (a i < W)%nat) ->
+  merge_counters (map (fun w => count_trace (worker_calls (omp_tsm_tasks d per stop 63 src tgt) a w)) (seq 0 W))
+  = count_trace (execute_tsm d per stop 63 src tgt).
+Proof. exact omp_tsm_worker_counters. Qed.
+Print Assumptions C18_omp_tsm_worker_counters.
